@@ -258,7 +258,12 @@ theorem step_watch (q : Q) (s : State) (now c : Nat) (keys : List Key) :
 
 theorem step_unwatch (q : Q) (s : State) (now c : Nat) :
     (step q s now (.unwatch c)).1 =
-      (unregAll q (s.conn c) s (s.conn c).watched).setConn c { s.conn c with watched := [] } := rfl
+      if (q.unwatchQueued && (s.conn c).inTx) = true then s.setConn c { (s.conn c) with queued := (s.conn c).queued + 1 }
+      else (unregAll q (s.conn c) s (s.conn c).watched).setConn c { s.conn c with watched := [] } := by
+  simp only [step, unregAll]
+  split <;> rfl
+
+theorem step_refused (q : Q) (s : State) (now c : Nat) : (step q s now (.refused c)).1 = s := rfl
 
 /-- the connection after EXEC / DISCARD -/
 def Conn.cleared (cn : Conn) : Conn := { cn with inTx := false, watched := [], queued := 0 }
@@ -313,7 +318,10 @@ theorem grows_step (q : Q) (s : State) (now : Nat) (ev : Ev) : Grows s (step q s
     · exact grows_watchAll q c now s keys
   | unwatch c =>
     rw [step_unwatch]
-    exact (grows_unregAll q _ s _).trans (grows_setConn _ _ _)
+    split
+    · exact grows_setConn _ _ _
+    · exact (grows_unregAll q _ s _).trans (grows_setConn _ _ _)
+  | refused c => exact Grows.refl s
   | multi c =>
     simp only [step]
     split
@@ -384,9 +392,13 @@ theorem quiet_step (q : Q) (s : State) (now : Nat) (ev : Ev) (c : Nat) (h : quie
     · rw [conn_watchAll_other q c' now s keys c hc]; exact ⟨rfl, Or.inr rfl⟩
   | unwatch c' =>
     have hc : c' ≠ c := by simpa [quiet] using h
-    rw [step_unwatch, conn_setConn]
-    simp only [hc, if_false]
-    unfold State.conn; rw [conns_unregAll]; exact ⟨rfl, Or.inr rfl⟩
+    rw [step_unwatch]
+    split
+    · rw [conn_setConn]; simp [hc]
+    · rw [conn_setConn]
+      simp only [hc, if_false]
+      unfold State.conn; rw [conns_unregAll]; exact ⟨rfl, Or.inr rfl⟩
+  | refused c' => exact ⟨rfl, Or.inr rfl⟩
   | multi c' =>
     rw [step_multi]
     split
@@ -490,9 +502,12 @@ theorem step_untouched (q : Q) (s : State) (now : Nat) (ev : Ev) (d : Nat) (k : 
       exact watchAll_same q c now s keys d k h
   | unwatch c =>
     rw [step_unwatch]
-    refine ⟨?_, ?_⟩
-    · rw [counter_setConn, counter_unregAll]
-    · rw [entry_setConn]; unfold State.entry; rw [data_unregAll]
+    split
+    · exact ⟨rfl, rfl⟩
+    · refine ⟨?_, ?_⟩
+      · rw [counter_setConn, counter_unregAll]
+      · rw [entry_setConn]; unfold State.entry; rw [data_unregAll]
+  | refused c => exact ⟨rfl, rfl⟩
   | multi c => simp only [step]; split <;> exact ⟨rfl, rfl⟩
   | exec c ops =>
     simp only [evTouches, executed, Bool.or_false] at h
@@ -579,6 +594,7 @@ theorem executed_mem (q : Q) (s : State) (now : Nat) (ev : Ev) (p : Nat × Op) (
       rw [step_cmd]; simp [hc']
   | watch c keys => simp [executed] at h
   | unwatch c => simp [executed] at h
+  | refused c => simp [executed] at h
   | multi c => simp [executed] at h
   | discard c => simp [executed] at h
   | select c d => simp [executed] at h
@@ -744,6 +760,7 @@ theorem step_changed_marks (q : Q) (s : State) (now : Nat) (ev : Ev) (d : Nat) (
         simp only [hc, if_false]
         exact watchAll_changed_marks q c now s keys d k hk (hsw c keys rfl) hch ha
     | unwatch c => simp [evTouches, executed] at ht
+    | refused c => simp [evTouches, executed] at ht
     | multi c => simp [evTouches, executed] at ht
     | discard c => simp [evTouches, executed] at ht
     | select c d' => simp [evTouches, executed] at ht
